@@ -9,7 +9,7 @@ ASSUMPTIONS = [
     "C12: documents: every ordered forest over 1 Document + 3 Sections named a, ab, abc (prefixes of one another; path strings reach posixpath, C code, so "
     "names are concrete); linking Section and target by symbolic index under the property's side conditions (both in the document, target not the linking "
     "Section nor its ancestor or descendant, no chained or nested links); absolute or relative link text; target content none / Properties / Properties and a "
-    "sub-Section; own children of the linking Section none / other names / the same names",
+    "sub-Section; own children of the linking Section none / other names / the same names / a Section of the same name but another type than a child of the target",
     "C12: includes: terminology.load is the in-memory stub (returns the other document for the URL, no thread, no network, no cache): fetching, caching and "
     "background loading are C18's subject and outside this claim",
     "C12: the stored link may be rewritten by clean() (relative form); 'still designates the same target' is decided by resolving it",
@@ -69,7 +69,7 @@ def fill_target(v, target):
 
 def fill_linking(v, linking):
     import odml
-    kind = v.choice("own.children", 3)
+    kind = v.choice("own.children", 4)
     if kind == 1:
         odml.Property(name="own", values=[9], parent=linking)
         odml.Section(name="ownsec", type="t", parent=linking)
@@ -77,6 +77,12 @@ def fill_linking(v, linking):
         # same names as the target's children, with attributes that differ from the target's (a strict merge would refuse them)
         odml.Property(name="p", values=[7], parent=linking, unit="V", definition="own definition")
         sub = odml.Section(name="sub", type="t", parent=linking, definition="own sub")
+        odml.Property(name="mine", values=[8], parent=sub)
+    elif kind == 3:
+        # a child Section named like a child Section of the target but of another type: the name is in use, so the property's first
+        # sentence wants the target's child skipped (merge() itself refuses such a pair, C13)
+        odml.Property(name="own", values=[9], parent=linking)
+        sub = odml.Section(name="sub", type="another type", parent=linking)
         odml.Property(name="mine", values=[8], parent=sub)
     return kind
 
@@ -124,13 +130,23 @@ def run_cycle(v, doc, linking, target, resolve):
     others = [o for o in C.closure([doc, target]) if not any(o is b for b in below)]
     whole_before = _snapshot_without_reference(linking, [doc, target])
     link_attrs_before = tuple(getattr(linking, a, None) for a in C.SEC_ATTRS if a not in ("_link", "_include"))
+    type_clash = any(s.name == t.name and s.type != t.type for s in own_secs for t in C.raw(target._sections))
     for cycle in range(2):
         others_before = C.snapshot(others, expand=False)
+        everything_before = C.snapshot([doc, target]) if type_clash else None
         try:
             doc.finalize()
         except Exception as exc:  # noqa
             v.classify(exc)
             v.note("exception", type(exc).__name__)
+            if type_clash:
+                # the open finding is "finalize refuses with ValueError and changes nothing"; a refusal that leaves a
+                # half-resolved link behind, or any other exception, is not that finding
+                v.label("type-clash-refused")
+                diff = C.snapshot_diff(everything_before, C.snapshot([doc, target]))
+                if diff is not None:
+                    raise Violation("finalize raised %s and left the document changed: %s" % (type(exc).__name__, diff))
+                v.known("F-C12-other-type-child", isinstance(exc, ValueError))
             raise Violation("finalize raised %s" % type(exc).__name__)
         v.label("finalized")
         check_finalized(v, linking, target, own_secs, own_props, others_before, others)
@@ -178,7 +194,7 @@ def _find_dict(tree, oid):
 
 @obligation("C12", "links", shards=12, budget={"quick": 400, "thorough": 1200},
             expect=["finalized", "cleaned", "shared-names"],
-            bounds="see assumptions: 24 shapes x ordered (linking, target) pairs x absolute/relative link x target content (3) x own children (3); two "
+            bounds="see assumptions: 24 shapes x ordered (linking, target) pairs x absolute/relative link x target content (3) x own children (4); two "
                    "finalize/clean cycles")
 def links_ob(v):
     """finalize adds only copies of the target's children whose names are free; clean restores the document; the link still resolves."""
